@@ -17,7 +17,9 @@ SPEC = Spec(
          "configured order differs from the lexical one; ~6% of the cases fail validation (no receiver / no exporter / duplicated "
          "processor) and are not built; 5% have one receiver/exporter factory fail inside buildComponents (Build must return the error; model "
          "buildWith); in 20% of the built cases one to three exporters/processors return an error from Consume (after recording/forwarding) and "
-         "the route multisets must be unchanged; one tagged payload injected at every receiver instance. thorough adds the exhaustive scope <=3 pipelines x 2 signals x "
+         "the route multisets must be unchanged; 30% of the plain exporters declare MutatesData (besides all processors); the CONTEXT of every injected payload is a "
+         "dimension: live 40% / already cancelled 20% / deadline expired 20% / cancelled by a component at the k-th Consume call 20% - routing must not depend on "
+         "it, the route multisets are diffed as they are; one tagged payload injected at every receiver instance. thorough adds the exhaustive scope <=3 pipelines x 2 signals x "
          "2 connectors (266304 configurations). non-trivial = uses a connector or shares a receiver/exporter between pipelines; "
          "distinct = distinct op sequences (sha1 of the op lines).",
     trusted_base=[
